@@ -85,7 +85,7 @@ theorem step_lk (cfg : Cfg) (s : St) (e : Ev) (hs : s.stopping = true) (hst : s.
     fun hk a b c d => LK_of_eq a b c d hk hs
   cases e with
   | leaveDone r => exact absurd rfl (hne r)
-  | start => simp only [step, hst, if_true]; (first | exact same | simp [hs])
+  | start => simp only [step, hst, Bool.true_or, if_true]; (first | exact same | simp [hs])
   | stop => exact via (stopCall_lk cfg s none true) rfl rfl rfl rfl
   | coordDone r =>
     simp only [step]; split
